@@ -173,6 +173,24 @@ def gen_near_case(rnd, thorough):
     return {"hdr": hdr, "ncats": ncats, "syms": syms, "ops": ops, "family": "near-equal-constants"}
 
 
+def witness_case():
+    """the individual of Props/Refuted_C02.v (C02_cse_pinned_comparator_wf_refuted), built cell by cell with
+    replace and put through cse(): the pinned comparator prints [2,1] G 2 (its own row), the repaired one G 3"""
+    syms = [(0, "f", 1.0, [0, 0]), (0, "p", 1.0, []), (1, "f", 1.0, [0]), (1, "t", 1.0, [])]
+    rows = [(("p", 0), "t"), (("p", 1), "t"), (("F", 5, 8), ("G", 3)), (("F", 5, 8), "t"), (("F", 6, 7), "t"),
+            (("p", 5), "t"), (("p", 6), "t"), (("p", 7), "t"), (("p", 8), "t")]
+    ops = [["N", "0"]]
+    for r, (a, b) in enumerate(rows):
+        if a[0] == "p":
+            ops.append(["R", "0", str(r), "0", "1", dhex(float(a[1])), "0"])
+        else:
+            ops.append(["R", "0", str(r), "0", "0", dhex(0.0), "2", str(a[1]), str(a[2])])
+        ops.append(["R", "0", str(r), "1", "3", dhex(0.0), "0"] if b == "t" else
+                   ["R", "0", str(r), "1", "2", dhex(0.0), "1", str(b[1])])
+    ops += [["B", "0", "2", "1"], ["C", "0"]]
+    return {"hdr": ["I", "5", "9", "1", "1", "1"], "ncats": 2, "syms": syms, "ops": ops, "family": "refuted-witness"}
+
+
 def case_line(case, nops=None):
     ops = case["ops"] if nops is None else case["ops"][:nops]
     t = case["hdr"] + sset_tokens(case["ncats"], case["syms"]) + ["O"]
@@ -239,18 +257,13 @@ def judge(case, hline, mline, crash=None):
         if o[0] == "M" and int(o[2], 16) == 0 and (fl.get("same") != "1" or hextra != "0"):
             viols.append(("mutation:zero-probability-changes",
                           "mutation with probability zero changed the individual (count %s): %s" % (hextra, hdump[:200]), i))
-        if o[0] == "C" and "swo" in fl:
-            stats["cse_hypothesis_params_swo_checked"] = stats.get("cse_hypothesis_params_swo_checked", 0) + 1
-            if fl["swo"] != "1":
-                diffs.append((i, "params_swo_b = false: the hypothesis of C02_cse_wf is not met by this individual", hdump[:300]))
         # ---- correspondence
         if mdump == "NONE":
-            pre = o[0] == "X" and R == 2 and " i:1:1:" in (" " + hd)
-            if pre:
-                stats["one_point_size2_precondition"] = stats.get("one_point_size2_precondition", 0) + 1
-            else:
-                diffs.append((i, "model: no result (draw stream does not fit / precondition)", hdump[:300]))
+            diffs.append((i, "model: no result (the draw stream does not fit the model)", hdump[:300]))
             continue
+        if o[0] == "X" and R == 2 and " i:1:1:" in (" " + hd):
+            # one-point crossover on 2 rows: between(1,1), an empty range; the model accepts any size_t
+            stats["one_point_size2_empty_range"] = stats.get("one_point_size2_empty_range", 0) + 1
         if mdump != hdump:
             diffs.append((i, mdump[:400], hdump[:400]))
         elif mrest != "0":
@@ -365,9 +378,9 @@ def run(ck):
         "(checked inside the model's draw primitives; streams that break it give no result)",
         "terminal::init() of a parametric terminal consumes exactly one draw and returns its value",
         "symbol identity is opcode identity (opcodes are primary keys)",
-        "cse_wf assumes params_swo_b (no NaN parameter: '<' on the parameters present is a strict weak order)",
-        "one-point crossover needs 3 <= rows: with 2 rows the code calls between(1,1), an empty range (model: no result); "
-        "the implementation's output is still judged by ind_ok_b",
+        "ephemeral constants are numbers: random::between<double> never returns a NaN (checked by init_par; part of ind_ok_b)",
+        "one-point crossover on 2 rows calls between(1,1), an empty range outside the contract of std::uniform_int_distribution; "
+        "modelled as libstdc++ behaves: any size_t may come back (between_or_any), rows cut..R-1 are copied",
         "Flocq/stdlib axioms appear only because gene parameters are binary64 values (Base/F64.v)"]
 
     harness = vv.build_harness("h_mep")
@@ -379,7 +392,7 @@ def run(ck):
         cases = [rp["case"]] if "case" in rp else rp.get("cases", [])
     else:
         n = 30000 if ck.thorough else 1500
-        cases = []
+        cases = [witness_case()]
         # boundaries of the proofs' case splits: 2 and 3 rows per flavour, patch = rows - 1, one category
         for fl in range(4):
             for R in (2, 3, 4):
@@ -427,7 +440,7 @@ def run(ck):
         diffs, viols, stats = judge(c, hout[k], mout[k])
         for a, b in stats.items():
             total[a] = total.get(a, 0) + b
-        if c.get("family"):
+        if c.get("family") == "near-equal-constants":
             total["cse_on_near_equal_constants"] = total.get("cse_on_near_equal_constants", 0) + stats.get("cse", 0)
         kinds = {o[0] for o in c["ops"]} - {"N", "F", "A"}
         if len(kinds) >= 2 and int(c["hdr"][2]) >= 3:
